@@ -155,6 +155,18 @@ pub fn freq_class(r: &mut Rng, region: RegionId) -> u32 {
     }
 }
 
+/// An RNG streak: the same number `count` times in a row (a poor or momentarily stuck entropy source).
+pub fn gen_rng_stuck(r: &mut Rng) -> (u32, u16) {
+    let v = match r.below(5) {
+        0 => 0,
+        1 => u32::MAX,
+        2 => r.below(72) as u32,
+        3 => (r.below(64) as u32) << 26,
+        _ => r.next_u32(),
+    };
+    (v, *r.pick(&[1u16, 2, 17, 257, 300, 1000]))
+}
+
 pub fn send_len(r: &mut Rng) -> u8 {
     *r.pick(&[0u8, 1, 1, 2, 3, 5, 8])
 }
